@@ -57,7 +57,7 @@ def case_strategy(maxops):
     })
 
 def make_case(c):
-    return {'setup': {'ndocs': c['ndocs'], 'flags': c['flags'], 'pre': c['pre']}, 'ops': [list(o) for o in c['ops']], 'excl': sorted(ACTIVE_EXCLUSIONS)}
+    return {'setup': {'ndocs': c['ndocs'], 'flags': c['flags'], 'pre': c['pre']}, 'ops': [list(o) for o in c['ops']], 'excl': sorted(ACTIVE_EXCLUSIONS), 'gen': 2}
 
 def run_case(case, ex):
     return dh.run_case(case, ex, case.get('optable') or OPTABLE)     # witnesses may carry their own (smaller) op table
